@@ -1,0 +1,54 @@
+// Copyright (c) Tailscale Inc & AUTHORS
+// SPDX-License-Identifier: BSD-3-Clause
+
+//go:build verif
+
+package setec
+
+import (
+	"slices"
+
+	"github.com/tailscale/setec/types/api"
+)
+
+// VerifEntry is a read-only view of one entry of a Store's active set.
+// It exists only in builds with the "verif" tag (verification instrumentation).
+type VerifEntry struct {
+	Name       string
+	Nil        bool // the entry is a stub that has no value yet
+	Version    api.SecretVersion
+	Value      []byte
+	LastAccess int64
+	Declared   bool
+	HasHandle  bool
+	Watchers   int
+}
+
+// VerifSnapshot returns the contents of s's active set, sorted by name,
+// without touching access times or creating handles.
+func VerifSnapshot(s *Store) []VerifEntry {
+	s.active.Lock()
+	defer s.active.Unlock()
+	var out []VerifEntry
+	for name, cs := range s.active.m {
+		e := VerifEntry{Name: name, Nil: cs == nil || cs.Secret == nil}
+		if !e.Nil {
+			e.Version = cs.Secret.Version
+			e.Value = slices.Clone(cs.Secret.Value)
+			e.LastAccess = cs.LastAccess
+			e.Declared = cs.Declared
+		}
+		_, e.HasHandle = s.active.f[name]
+		e.Watchers = len(s.active.w[name])
+		out = append(out, e)
+	}
+	slices.SortFunc(out, func(a, b VerifEntry) int {
+		if a.Name < b.Name {
+			return -1
+		} else if a.Name > b.Name {
+			return 1
+		}
+		return 0
+	})
+	return out
+}
